@@ -108,6 +108,21 @@ def directed():
         D.append(("selector-" + sel, mk(5, ["* bcast 20000 1 0", "* reduce 20000 2 0", "* allreduce 20000 0", "* alltoall 2000 0", "* gather 2000 3 0",
                                             "* scatter 2000 3 0", "* allgather 2000 0", "* reducescatter 0 100 0 2000 50 7", "* scan 100 0", B],
                                         cfg=["--cfg=smpi/coll-selector:" + sel])))
+    # ompi selector, 8 ranks on 5 hosts: the large bcast goes through an algorithm that calls Comm::init_smp()
+    D.append(("selector-ompi-large-bcast", mk(8, ["* bcast 27742 1 0", B], cfg=["--cfg=smpi/coll-selector:ompi"],
+                                              hosts=["Bourassa", "Bourassa", "Fafard", "Ginette", "Tremblay", "Bourassa", "Jupiter", "Tremblay"])))
+    # per-message overheads (smpi/os, smpi/or, smpi/ois as on calibrated platforms): the order in which a collective
+    # completes its internal requests becomes visible in the dates
+    OV = ["--cfg=smpi/os:0:8.93e-6:7.65e-10;1420:1.1e-5:1.2e-10;65536:0:0", "--cfg=smpi/or:0:8.14e-6:8.9e-10;1420:1.3e-5:1.9e-10;65536:0:0",
+          "--cfg=smpi/ois:0:7.7e-6:3.6e-10;1420:2.4e-6:1e-10;65536:0:0"]
+    one = ["Tremblay"] * 8
+    D.append(("overheads-scan", mk(8, ["* scan 5 1"], cfg=OV, hosts=one)))
+    D.append(("overheads-exscan", mk(8, ["* exscan 5 1"], cfg=OV, hosts=one)))
+    D.append(("overheads-p2p", mk(3, [["0 isend 1 7 1000 1 0", "1 irecv 0 7 1000 1 0"], ["0 isend 2 7 70000 6 1", "2 irecv 0 7 70000 6 0"],
+                                      ["2 isend 0 1 10 0 1", "0 irecv 2 1 10 0 2"], "* waitall", ["1 send 0 2 3000 0", "0 recv 1 2 3000 0"]], cfg=OV)))
+    D.append(("overheads-colls", mk(6, ["* bcast 3000 1 0", "* reduce 3000 2 0", "* allreduce 500 0", "* alltoall 200 0", "* gather 300 3 0",
+                                        "* scatter 300 3 0", "* allgather 300 0", "* reducescatter 0 100 0 2000 50 7 1", "* gatherv 1 1 5 0 700 3 9 2",
+                                        "* scatterv 1 1 5 0 700 3 9 2", "* allgatherv 0 5 0 700 3 1 1", B], cfg=OV, hosts=["Tremblay", "Tremblay", "Jupiter", "Jupiter", "Fafard", "Fafard"])))
     return D
 
 
@@ -207,6 +222,12 @@ def judge(ctx, base, name, case, tmo=300, bisect=True):
     finally:
         shutil.rmtree(d, ignore_errors=True)
     ctx.evaluation()
+    if name.startswith("probe-"):
+        # non-deciding observation (see META level_note): recorded in the evidence, never a verdict
+        ctx.count("probe.%s.%s" % (name[6:], st))
+        if st == "diverge":
+            ctx.maximum("probe.%s.abs_date_difference" % name[6:], abs(info["online"] - info["replay"]))
+        return st
     if st == "watchdog":
         ctx.inconclusive("smpirun watchdog (%s)" % info["stage"])
         return st
@@ -241,7 +262,7 @@ def judge(ctx, base, name, case, tmo=300, bisect=True):
     ft = features(case, evs, info2)
     if ft:
         key += ":" + ":".join(ft)
-    if evs[-1][0].split()[1] in tigen.COLLS and culprit != "barrier":
+    if evs[-1][0].split()[1] in tigen.COLLS + ["reducescatterblock", "gatherz", "scatterz"] and culprit != "barrier":
         if selector(case["cfg"]):
             key += ":selector=" + selector(case["cfg"])
         if overheads(case["cfg"]):
@@ -265,6 +286,9 @@ def run(ctx):
     n = ctx.size(36, 900)
     only = os.environ.get("VERIF_C37_ONLY", "")          # development knob: "dir" or "rnd"
     jobs = [(nm, c) for nm, c in directed()] if only != "rnd" else []
+    if only != "rnd":
+        # usleep(1234567): the TI writer prints `sleep 1.23457` (default stream precision, 6 significant digits)
+        jobs.append(("probe-sleep-7-digits", mk(2, ["0 sleep 1234567", "* barrier"])))
     for i in range(n if only != "dir" else 0):
         rng = ctx.sub_rng(i)
         np_ = rng.choice([2, 2, 3, 3, 4, 4, 5, 6, 7, 8, 8, 9, 12])
@@ -301,7 +325,12 @@ def excluded(cfg, np_):
 
 # Triggers of the open known findings (known_findings.d/C37.json), kept out of the random programs: see tigen.program/config.
 def _avoid():
+    """Triggers kept out of the random programs = `avoid` fields of the open entries of known_findings.d/C37.json (so that
+    a trigger comes back by itself once its finding is marked fixed). VERIF_C37_AVOID=a,b (or empty) overrides, e.g. to
+    explore a tree where the proposed fixes are applied."""
     import json
+    if "VERIF_C37_AVOID" in os.environ:
+        return tuple(x for x in os.environ["VERIF_C37_AVOID"].split(",") if x)
     try:
         with open(os.path.join(os.path.dirname(__file__), "..", "..", "..", "known_findings.d", "C37.json")) as f:
             return tuple(sorted({e["avoid"] for e in json.load(f)["findings"] if e.get("status") == "open" and e.get("avoid")}))
